@@ -156,8 +156,10 @@ class Trivia:
     CLAUSES = ('if', 'elif', 'else', 'for', 'while', 'for_else', 'while_else', 'try', 'except', 'try_else', 'finally', 'with',
                'match', 'case', 'def', 'class')
 
-    def __init__(self, rng=None, p=0.0, forced=None, star=()):
+    def __init__(self, rng=None, p=0.0, forced=None, star=(), exclude=(), few_deco=False):
         self.rng, self.p, self.forced = rng, p, dict(forced or {})
+        self.exclude = set(exclude)    # (slot, kind) pairs never picked at random
+        self.few_deco = few_deco       # decorators only where the deco slot asks for one (keeps the systematic cases short)
         self.star = set(star)          # id() of try statements whose handlers are spelled `except*`
         self.used = {}                 # (slot, kind) -> count, for the coverage statistics
 
@@ -173,7 +175,7 @@ class Trivia:
                 break
         else:
             if self.rng is not None and self.p > 0 and self.rng.random() < self.p:
-                kind = self.rng.choice(self.kinds(slot))
+                kind = self.rng.choice([k for k in self.kinds(slot) if (slot, k) not in self.exclude])
         if kind is not None:
             self.used[(slot, kind)] = self.used.get((slot, kind), 0) + 1
         return kind
@@ -234,6 +236,8 @@ def layout(module, plain=False, deco_rng=None, ret_comps=False, trivia=None):
         if deco_rng is None and tk is None:
             return ""
         n_deco = deco_rng.choice([0, 0, 1, 1, 2]) if deco_rng is not None else 0
+        if trivia is not None and trivia.few_deco:
+            n_deco = 0
         if tk is not None:
             n_deco = max(n_deco, 1)      # trivia between the decorators and the header needs a decorator
         for i in range(n_deco):
@@ -407,17 +411,17 @@ def layout(module, plain=False, deco_rng=None, ret_comps=False, trivia=None):
 # systematic trivia cases: one compound statement, definitions in EVERY clause, trivia at exactly one slot
 # ---------------------------------------------------------------------------------------
 def trivia_templates(fresh, rot=0):
-    """{template name: (statement, [(clause, arm)])}: every clause block holds a def, a class (with a method) and a simple
-    statement, rotated so that each of them is first / last in some block; a dropped clause loses definitions."""
+    """{template name: (statement, [(clause, arm)])}: every clause block holds two of {def, class with a method, simple
+    statement}, rotated so that each of them is first / last in some block; a dropped clause loses definitions."""
     cnt = [rot]
 
-    def B(in_class=False):
+    def B():
         items = [('def', 0, fresh(), [('simple', 0)]),
-                 ('class', 0, fresh(), [('def', 0, fresh(), [('simple', 0)])]),
-                 ('simple', 0)]
+                 ('simple', 0),
+                 ('class', 0, fresh(), [('def', 0, fresh(), [('simple', 0)])])]
         cnt[0] += 1
         r = cnt[0] % 3
-        return items[r:] + items[:r]
+        return (items[r:] + items[:r])[:2]
 
     t = {}
     t['if'] = (('if', 0, B(), [(0, B()), (0, B())], B()), [('if', None), ('elif', 0), ('elif', 1), ('else', None)])
@@ -425,10 +429,9 @@ def trivia_templates(fresh, rot=0):
     t['while'] = (('while', 0, B(), B()), [('while', None), ('while_else', None)])
     t['try'] = (('try', 0, B(), [(0, B()), (0, B())], B(), B()),
                 [('try', None), ('except', 0), ('except', 1), ('try_else', None), ('finally', None)])
-    t['try_star'] = (('try', 0, B(), [(0, B()), (0, B())], B(), B()),
-                     [('try', None), ('except', 0), ('except', 1), ('try_else', None), ('finally', None)])
+    t['try_star'] = (('try', 0, B(), [(0, B()), (0, B())], B(), B()), [('except', 0), ('except', 1), ('finally', None)])
     t['try_finally'] = (('try', 0, B(), [], None, B()), [('try', None), ('finally', None)])
-    t['try_except'] = (('try', 0, B(), [(0, B())], None, None), [('try', None), ('except', 0)])
+    t['try_except'] = (('try', 0, B(), [(0, B())], None, None), [('except', 0)])
     t['with'] = (('with', 0, B()), [('with', None)])
     t['match'] = (('match', 0, [(0, B()), (0, B())]), [('match', None), ('case', 0), ('case', 1)])
     t['def'] = (('def', 0, fresh(), B()), [('def', None)])
@@ -436,34 +439,38 @@ def trivia_templates(fresh, rot=0):
     return t
 
 
-def trivia_cases(rng, per_module=12):
+TRIVIA_TEMPLATES = ('if', 'for', 'while', 'try', 'try_star', 'try_finally', 'try_except', 'with', 'match', 'def', 'class')
+
+
+def trivia_cases(rng, per_module=18, sample=None):
     """Every (template, clause, slot, kind) once - the trivia sits at exactly one position of one statement - and, per kind,
-    one module with that kind at EVERY slot of every template.  Returns module records {ast, lines, trivia_case: [...]};
-    each single case is a top-level function wrapping the statement (so that nested names are qualified), followed by a
-    simple statement; half of the wrappers are methods of a class."""
+    one module with that kind at EVERY slot of every template.  Returns module records {ast, lines, trivia_case: [...]}.
+    The statements of a module sit at module level, in a function and in a method of a class (a third each).
+    sample: fraction of the single-position cases kept (quick tier); the all-slots modules are always generated.  The decorator
+    cases whose comment is indented less than the decorator get a module of their own (tree-sitter does not parse such a file)."""
     names = [5000]
 
     def fresh():
         names[0] += 1
         return names[0]
 
-    cases = []          # (label, top-level statement, forced map, star ids)
+    cases = []          # (label, statement, forced map, star ids)
+    alone = []
     rot = 0
     for slotkind in ('hdr', 'pre', 'post'):
         for kind in Trivia.kinds(slotkind + ':if'):
-            for tname in sorted(trivia_templates(lambda: 0)):
-                stmt, clauses = trivia_templates(fresh, rot)[tname]
-                rot += 1
-                # one fresh statement per clause so that exactly one slot carries trivia
-                for ci in range(len(clauses)):
+            for tname in TRIVIA_TEMPLATES:
+                for ci in range(len(trivia_templates(lambda: 0)[tname][1])):
+                    if sample is not None and rng.random() >= sample:
+                        continue
+                    # a fresh statement per case: exactly one slot carries trivia
                     stmt, clauses = trivia_templates(fresh, rot)[tname]
                     rot += 1
                     clause, arm = clauses[ci]
                     if clause == 'match' and slotkind == 'post':
                         continue
                     slot = slotkind + ':' + clause
-                    wrap = ('def', 0, fresh(), [stmt, ('simple', 0)])
-                    cases.append(("%s/%s/%s/%s" % (tname, slot, arm, kind), wrap, {(id(stmt), slot, arm): kind},
+                    cases.append(("%s/%s/%s/%s" % (tname, slot, arm, kind), stmt, {(id(stmt), slot, arm): kind},
                                   [id(stmt)] if tname == 'try_star' else []))
     for kind in Trivia.DECO:
         for tname in ('def', 'class'):
@@ -473,28 +480,41 @@ def trivia_cases(rng, per_module=12):
             for x in stmt[3]:
                 if x[0] in ('def', 'class'):
                     forced[(id(x), 'deco', None)] = kind
-            cases.append(("%s/deco/%s" % (tname, kind), ('def', 0, fresh(), [stmt, ('simple', 0)]), forced, []))
+            case = ("%s/deco/%s" % (tname, kind), stmt, forced, [])
+            if kind == 'c_col0':
+                alone.append(case)
+            else:
+                cases.append(case)
     rng.shuffle(cases)
     mods = []
-    for off in range(0, len(cases), per_module):
-        chunk = cases[off:off + per_module]
-        forced, star, top, meth = {}, [], [], []
-        for i, (label, wrap, f, st_) in enumerate(chunk):
+
+    def mk(chunk, indented=False):
+        forced, star, groups = {}, [], ([], [], [])
+        for i, (label, stmt, f, st_) in enumerate(chunk):
             forced.update(f)
             star += st_
-            (meth if i % 2 else top).append(wrap)
-        module = top + ([('class', 0, fresh(), meth)] if meth else [])
-        tv = Trivia(forced=forced, star=star)
+            groups[1 if indented else i % 3].append(stmt)
+        module = list(groups[0])
+        if groups[1]:
+            module.append(('def', 0, fresh(), groups[1] + [('simple', 0)]))
+        if groups[2]:
+            module.append(('class', 0, fresh(), [('def', 0, fresh(), groups[2] + [('simple', 0)])]))
+        tv = Trivia(forced=forced, star=star, few_deco=True)
         a, lines = layout(module, deco_rng=rng, trivia=tv)
         mods.append({"ast": a, "lines": lines, "trivia_case": [c[0] for c in chunk], "trivia_used": tv.used})
+
+    for off in range(0, len(cases), per_module):
+        mk(cases[off:off + per_module])
+    for case in alone:
+        mk([case], indented=True)
     # the same kind at every slot at once (interactions between neighbouring trivia)
     for slotkind in ('hdr', 'pre', 'post'):
         for kind in Trivia.kinds(slotkind + ':if'):
             tpl = trivia_templates(fresh, rot)
             rot += 1
             forced = {(None, slotkind + ':' + cl, None): kind for cl in Trivia.CLAUSES}
-            module = [('def', 0, fresh(), [tpl[n][0] for n in sorted(tpl)] + [('simple', 0)])]
-            tv = Trivia(forced=forced, star=[id(tpl['try_star'][0])])
+            module = [('def', 0, fresh(), [tpl[n][0] for n in TRIVIA_TEMPLATES] + [('simple', 0)])]
+            tv = Trivia(forced=forced, star=[id(tpl['try_star'][0])], few_deco=True)
             a, lines = layout(module, deco_rng=rng, trivia=tv)
             mods.append({"ast": a, "lines": lines, "trivia_case": ["all/%s/%s" % (slotkind, kind)], "trivia_used": tv.used})
     return mods
